@@ -56,4 +56,31 @@ theorem u64_ofNat (n : Nat) (h : n < 18446744073709551616) : u64 (n : Int) = n :
   rw [Int.emod_eq_of_lt (by omega) (by omega)]
   simp
 
+theorem u64_wrap32 (t : Nat) (h : t < 4294967296) : u64 (convTo "int32" (t : Int)) = sx32 t := by
+  unfold u64 convTo sx32
+  simp only []
+  have e : (t : Int) % 4294967296 = t := Int.emod_eq_of_lt (by omega) (by omega)
+  rw [e]
+  split <;> split <;> omega
+
+theorem u64_convTo_uint64 (x : Int) : u64 (convTo "uint64" x) = u64 x := by
+  unfold u64 convTo
+  simp only []
+  rw [Int.emod_emod_of_dvd _ (by decide)]
+
+theorem convTo_uint64_ofNat (n : Nat) (h : n < 18446744073709551616) : convTo "uint64" (n : Int) = n := by
+  unfold convTo; simp only []
+  exact Int.emod_eq_of_lt (by omega) (by omega)
+
+theorem convTo_uint8_ofNat (n : Nat) : (convTo "uint8" (n : Int)).toNat = n % 256 := by
+  unfold convTo; simp only []
+  omega
+
+theorem convTo_int64_ofNat (n : Nat) (h : n < 18446744073709551616) : convTo "int64" (n : Int) = Prim.ofU 8 n := by
+  unfold convTo Prim.ofU
+  simp only []
+  rw [Prim.modulus_8, Int.emod_eq_of_lt (by omega) (by omega)]
+  split <;> split <;> omega
+
+
 end Wire
